@@ -450,6 +450,48 @@ def deep_wildcards(col, rng):
                               'assign(t, %r, NEW): %r ; target now %s, plain Python loops give %s' % (path, got if not got.ok else 'returned', short(t1, 300), short(t2, 300)), None)
 
 
+def wildcard_over_mixed_kinds_and_equal_holders(col):
+    """(1) one wildcard whose matches are of DIFFERENT kinds: each match gets the plain Python assignment of its own kind
+    (dict item / attribute / integer-coerced list index / item of a dict subclass).  (2) `**` in the destination: distinct
+    holders that compare EQUAL (rows built from one template) are distinct matches"""
+    import copy
+    for segment, mk in (('x', lambda: [{'x': 1, 'y': 2}, gen.PlainObj(x=1, y=2), AttrDict({'x': 3}), {'x': 4}]),
+                        ('x', lambda: [gen.PlainObj(x=1), {'x': 2}, gen.PlainObj(x=3)]),
+                        ('0', lambda: [['a', 'b'], {'0': 'zero'}, ['c']]),
+                        ('0', lambda: [{'0': 'zero'}, ['a', 'b']])):
+        for spelling in ('string', 'path'):
+            t, twin = mk(), mk()
+            for h in twin:
+                if isinstance(h, list):
+                    h[int(segment)] = 'NEW'
+                elif isinstance(h, dict):
+                    h[segment] = 'NEW'
+                else:
+                    setattr(h, segment, 'NEW')
+            path = '*.' + segment if spelling == 'string' else Path(T.__star__(), segment)
+            got = call(assign, t, path, 'NEW')
+            col.case(('wildcard-mixed-kinds', segment, spelling, tuple(type(h).__name__ for h in twin)), True)
+            col.count('assignments_attempted')
+            state = lambda hs: [(type(h).__name__, list(h.items()) if isinstance(h, dict) else list(h) if isinstance(h, list) else None,
+                                 sorted(getattr(h, '__dict__', {}).items())) for h in hs]
+            if not got.ok or state(t) != state(twin):
+                col.violation('C11/wildcard-over-mixed-kinds', 'assign(%s, %s, NEW): %r ; target now %s, plain Python gives %s'
+                              % ([type(h).__name__ for h in twin], short(path), got if not got.ok else 'returned', short(state(t), 400), short(state(twin), 400)), None)
+    for path, mk, holders in (
+            ('a.**.b.d', lambda: {'a': {'x': {'b': {}}, 'y': {'b': {}}, 'z': {'b': {'q': 1}}}}, lambda t: [t['a'][k]['b'] for k in 'xyz']),
+            ('rows.**.sub.tag', lambda: {'rows': [{'sub': {'id': 1}}, {'sub': {'id': 1}}, {'sub': {'id': 2}}, {'sub': {'id': 1}}]}, lambda t: [r['sub'] for r in t['rows']]),
+            (Path('rows', T.__starstar__(), 'sub', 'k'), lambda: {'rows': [{'sub': {}}, {'sub': {}}]}, lambda t: [r['sub'] for r in t['rows']])):
+        t, twin = mk(), mk()
+        for h in holders(twin):
+            h[path.split('.')[-1] if isinstance(path, str) else 'k'] = 'NEW'
+        got = call(assign, t, path, 'NEW')
+        col.case(('starstar-equal-holders', short(path)), True)
+        col.count('assignments_attempted')
+        if not got.ok or t != twin:
+            col.violation('C11/starstar-assignment-misses-an-equal-holder', 'assign(.., %s, NEW) over holders that compare equal: %r ; '
+                          'target now %s, assignment at every match gives %s' % (short(path), got if not got.ok else 'returned', short(t, 300), short(twin, 300)), None)
+
+
 def missing_before_wildcard(col):
     """missing= creates the absent segments in front of a wildcard; the wildcard then has no matches in the new container"""
     cases = [
@@ -562,5 +604,6 @@ def run(ctx):
         reused_assign_object(col, rng)
         missing_before_wildcard(col)
         attribute_vs_item_on_container_subclasses(col)
+        wildcard_over_mixed_kinds_and_equal_holders(col)
     for i in range(ctx.n(300, 3000)):
         one_target(col, rng)
